@@ -186,6 +186,10 @@ NeedsNS(b) == /\ ~(b.ins # "" /\ ~b.selinto /\ b.vals # <<>>)    \* INSERT .. VA
                  \/ ForeignNow(b)
                  \/ (b.upd # "" /\ b.from # <<>>)
 
+\* the head of a SELECT, between the keyword and the first select item: DISTINCT, then (SQL Server) TOP (n) - in that order, which is the
+\* only one T-SQL accepts
+SelHead(b, d) == (IF b.distinct THEN <<"DISTINCT">> ELSE <<>>) \o (IF d = "mssql" /\ b.top >= 0 THEN <<"TOP", "(", ToString(b.top), ")">> ELSE <<>>)
+
 (***************************************************************************)
 (* C09: the row-limiting tail, as a token-payload sequence                  *)
 (*   d in generic sqlite mysql postgresql mssql oracle                      *)
